@@ -72,6 +72,25 @@ def oracle(script: dict, run: Any) -> List[Violation]:
                                          f"{'not terminated' if old not in terminated else 'not joined'}"))
                     return out
             prev.append(e[4]["idx"])
+    # the manager terminates a live worker only in order to replace it: the replacement starts in the same tick
+    for i, e in enumerate(run.events):
+        if e[3] != "terminate" or e[4].get("state") != "terminating":
+            continue
+        name = next((x[4]["name"] for x in run.events if x[3] == "start" and x[4]["idx"] == e[4]["idx"]), None)
+        ok = False
+        for x in run.events[i + 1:]:
+            if x[3] == "start" and x[4]["name"] == name:
+                ok = True
+                break
+            if x[3] in ("return", "forced", "raise"):
+                ok = True          # start() ended (shutdown / budget / scenario over)
+                break
+            if x[3] == "sleep":
+                break
+        if not ok:
+            out.append(Violation("C17/terminated-but-not-replaced", f"the manager terminated live process {e[4]['idx']} ({name}) at tick {e[1]} and started no "
+                                 f"replacement for its slot in that tick"))
+            return out
     # every death is replaced within two ticks
     for e in run.events:
         if e[3] != "inject_die":
